@@ -116,9 +116,9 @@ def rollbackBatch (d : Disk) (target : Nat) : Option (Option (List BatchOp)) :=
     match (VS.mk db target).get (commitIDKey target) with
     | none => none   -- "missing commit id at height"
     | some cid =>
-      let (dels, keys) := pruneWindow db (target + 1) ver
-      some (some (dels ++ pruneDels db idxPrefix (target + 1) ver ++ pruneDels db cidPrefix (target + 1) ver ++
-        rollbackPatch db target keys ++ [.put (mkKey lastPrefix maxVer) (rawAlive cid)]))
+      let win := pruneWindow db (target + 1) ver
+      some (some (win.1 ++ pruneDels db idxPrefix (target + 1) ver ++ pruneDels db cidPrefix (target + 1) ver ++
+        rollbackPatch db target win.2 ++ [.put (mkKey lastPrefix maxVer) (rawAlive cid)]))
 
 /-- one step of a node's life -/
 inductive Ev
